@@ -483,7 +483,8 @@ Definition exec_d (d : dinstr) (a : act) (g : gstate) : sres :=
     | None => SFail (E_stack_shape OP_UNWRAP_INTO)
     | Some (r, v) =>
       let '(stored, status) := match v with VSome w => (w, true) | VNil => (VNil, false) | w => (w, true) end in
-      match bind_local g n stored with
+      (* since /repo 2ade5a8 `a ?= e` goes through Stack::register_variable like `store` (it used to bind in the top frame) *)
+      match store_var g n stored with
       | Some g' => SNext (set_ops a (r ++ [VBool status])) g' | None => SFail (E_panic OP_UNWRAP_INTO) end
     end
   | DJmpNotNil off =>
